@@ -17,6 +17,7 @@ import (
 //     skips every partition and the keys written since survive;
 //   - fanning the LC form out from a client (from its cached routing table) misses members
 //     that joined since the table was fetched: LC is never forwarded.
+//
 // Rule: destroyLocalDMap is called only by the DM.DESTROY handler, and the LC form of the
 // command is built only by destroyOnCluster (and decoded by the parser).
 func c19DestroyLayers(r *core.Run) {
